@@ -337,3 +337,97 @@ def render_attrs(attrs, fmt):
 def render(recs, fmt):
     return "".join("\t".join([r["seqid"], "src", r["featuretype"], str(r["start"]), str(r["end"]), ".", r["strand"], ".",
                               render_attrs(r["attrs"], fmt)]) + "\n" for r in recs)
+
+
+# -- workload classes added in round 3 ------------------------------------------------------------------------------------
+# transcript strands of one database, in file order; every order of '+' / '-' against '.' / '?' occurs, and the lists are
+# additionally rotated / reversed at random, so that whatever order the real code visits the transcripts in, a transcript
+# that is neither '+' nor '-' is visited after a '+' one, after a '-' one, and first
+STRAND_ORDERS = [["+", "."], ["-", "."], [".", "+"], [".", "-"], ["+", "?"], ["-", "?"], ["?", "+"], ["?", "-"],
+                 ["+", ".", "-"], ["-", ".", "+"], [".", "+", "."], [".", "-", "."], ["+", "-", "."], ["-", "+", "?"],
+                 ["?", ".", "+"], ["+", ".", "-", "?"], [".", "?"], ["+", "+", "."], ["-", "-", "?"]]
+
+
+def gapped_exon_intervals(rng, n, offset):
+    """n >= 2 intervals with distinct increasing starts, the first two separated by at least one base."""
+    while True:
+        ivs = exon_intervals(rng, n, offset)
+        if any(b[0] - a[1] >= 2 for a, b in zip(ivs, ivs[1:])):
+            return ivs
+
+
+def strand_order_model(rng, fmt):
+    """2..4 transcripts of DIFFERENT strands ('+', '-', '.', '?') in one database, each with at least one intron; the
+    transcripts hang under one gene or under one gene each, exons carry the strand of their transcript (GFF3: sometimes
+    random strands), records in file order or shuffled."""
+    strands = list(rng.choice(STRAND_ORDERS))
+    r = rng.random()
+    if r < 0.25:
+        strands.reverse()
+    elif r < 0.4:
+        rng.shuffle(strands)
+    one_gene = rng.random() < 0.5
+    seqid = rng.choice(SEQIDS)
+    same_place = rng.random() < 0.4      # all transcripts over the same coordinates: equal sites under different labels
+    offset0 = rng.choice([0, 0, 5000, 131000])
+    base_ivs = gapped_exon_intervals(rng, rng.choice([2, 2, 3, 4]), offset0)
+    recs = []
+    eid = 0
+    for t, tstrand in enumerate(strands):
+        gid = "g0" if one_gene else "g%d" % t
+        tid = "%s.t%d" % (gid, t)
+        offset = offset0 if same_place else offset0 + 300 * t
+        if fmt == "gff3":
+            if not one_gene or t == 0:
+                recs.append({"seqid": seqid, "featuretype": "gene", "start": offset0 + 1, "end": offset0 + 2000,
+                             "strand": rng.choice(STRANDS + ["?"]), "attrs": [["ID", [gid]]]})
+            recs.append({"seqid": seqid, "featuretype": "mRNA", "start": offset0 + 1, "end": offset0 + 2000,
+                         "strand": tstrand, "attrs": [["ID", [tid]], ["Parent", [gid]]]})
+        ivs = base_ivs if same_place else gapped_exon_intervals(rng, rng.choice([2, 2, 3, 4]), offset)
+        mixed = fmt == "gff3" and rng.random() < 0.15
+        block = []
+        for j, (s, e) in enumerate(ivs):
+            eid += 1
+            strand = rng.choice(STRANDS + ["?"]) if mixed else tstrand
+            if fmt == "gff3":
+                attrs = [["ID", ["e%d" % eid]], ["Parent", [tid]]]
+            else:
+                attrs = [["gene_id", [gid]], ["transcript_id", [tid]], ["ID", ["e%d" % eid]]]
+            if rng.random() < 0.5:
+                attrs.append(["exon_number", [str(j + 1)]])
+            block.append({"seqid": seqid, "featuretype": "exon", "start": s, "end": e, "strand": strand, "attrs": attrs})
+        rng.shuffle(block)
+        recs.extend(block)
+    if rng.random() < 0.25:
+        rng.shuffle(recs)
+    return recs
+
+
+def strand_order_options(rng, fmt, call):
+    opts = gene_options(rng, fmt, call)
+    opts["exon_featuretype"] = "exon"
+    return opts
+
+
+ADDED_KEYS = ["extra", "Name", "gap_of", "k7", "Note"]
+
+
+def update_attributes_for(rng, feats):
+    """update_attributes with 1..3 SINGLE-valued entries: keys that occur in the features of the list (override), keys
+    that occur in none of them (addition), and in about 40% an 'ID' with one value."""
+    present = []
+    for r in feats:
+        for k, _ in r["attrs"]:
+            if k not in present and k != "ID":
+                present.append(k)
+    upd = {}
+    if rng.random() < 0.4:
+        upd["ID"] = [rng.choice(["newid", "gap1", "7", "x-y"])]
+    want = rng.choice([1, 1, 2, 3])
+    while len(upd) < want or not upd:
+        if present and rng.random() < 0.55:
+            k = rng.choice(present)
+            upd[k] = [numeric_value(rng) if k == "exon_number" and rng.random() < 0.7 else rng.choice(WORDS + ["u1"])]
+        else:
+            upd[rng.choice([k for k in ADDED_KEYS if k not in present])] = [rng.choice(WORDS + ["u1", "3"])]
+    return upd
